@@ -8,6 +8,30 @@ TRUST = ("TLC; the reading of MCNP/TRIPOLI-4 semantics written down in DESIGN.md
          "(harness/vt4/shim.py) standing in for TatSu; the .t4 tokenizer and numeric SURF evaluator "
          "(harness/vt4/t4file.py); the concretiser that spells abstract decks as MCNP text")
 CHECKS = {
+ 'C05': dict(cat='model_checking', ref='6/C05',
+   text=("GenUniv.tla behaviours (nesting to depth 3, one universe reused in two containers, FILL transformations by "
+         "number/inline/starred/3-entry incl. the explicit null translation, FILL without transformation following the "
+         "container's TRCL, TRCL together with a FILL transformation, a filler with its own TRCL) are converted under sampled "
+         "inline/dedup options; TraceDeck.tla locates every probe point by carrying it down the hierarchy (McnpSem.Locate) "
+         "and compares owner and (filler, container) provenance with the written file."),
+   technique='TLA+ spec of hierarchical point location (McnpSem.Locate) checked by TLC against conversions of TLC-generated universe decks'),
+ 'C09': dict(cat='model_checking', ref='6/C09',
+   text=("Universe, Boolean and LIKE-BUT decks are decorated with materials and densities drawn from value classes in several "
+         "spellings; TraceDeck.tla clause compo: the composition attached to the owner of every probe point is defined, encodes "
+         "the material and density value of the lowest-level cell found by Locate (void -> m0), and cells of one material "
+         "share a composition iff their densities are in one value class."),
+   technique='TLA+ composition clause (TraceDeck.CompoVerdict over McnpSem.Locate) checked by TLC on files written for TLC-generated decks'),
+ 'C13': dict(cat='model_checking', ref='6/C13',
+   text=("Each generated deck (universes/FILL and Boolean) is converted under all 8 flag combinations and sampled inline "
+         "thresholds; every output is validated by TraceDeck.tla against the single reference meaning (owner, provenance, "
+         "composition of every probe point), so all outputs agree pairwise; the number of decks whose outputs differ "
+         "textually is reported."),
+   technique='one TLA+ reference meaning per deck (McnpSem) validated by TLC against the outputs of every option set'),
+ 'C15': dict(cat='model_checking', ref='6/C15',
+   text=("GenLike.tla enumerates base cells and BUT lists (subsets of MAT, RHO, IMP, FILL, U plus TRCL, LIKE-of-LIKE) and "
+         "defines ExpandLike; each abstract deck is written with LIKE cards and with explicit cards, both are converted, the "
+         "outputs must be identical and match McnpSem.Locate (owner, composition, zero-importance clause)."),
+   technique='TLA+ spec of LIKE n BUT expansion (GenLike.Override) enumerated by TLC; two concretisations converted by the real code, validated by TLC'),
  'C04': dict(cat='model_checking', ref='6/C04',
    text=("GenTr.tla enumerates (surface sample incl. one-sheet cones, tori, SQ/GQ, macrobodies) x (24 proper signed-"
          "permutation rotations) x displacement x carrier (TR number on the surface, TRCL by number/inline/starred, implicit "
